@@ -116,13 +116,26 @@
 (* them, the expectation stays the record's): batch length / thread count, *)
 (* how a columnfile names and stores its columns (sc,fc / xc,yc titles,     *)
 (* list of arrays / one 2-D array, copy, filter), caller-supplied output    *)
-(* buffers, histories of one object, the Python type of a parameter (float  *)
+(* buffers, histories of one object (all parameters, or only a subset of    *)
+(* them - only the wavelength, only the wedge, only the detector, ... -     *)
+(* edited between two updates: the model is a function of the current       *)
+(* configuration alone), the Python type of a parameter (float              *)
 (* / int / text through dumbtypecheck), a shift of the diffraction origin   *)
 (* along the beam by a rational (compute_gve xpos, get_local_gv grids:      *)
 (* d = xyz - x e_x - o from the record's exact xyz, o and G), a rotation A  *)
 (* of g paired with g_to_k's pre = A, the default axis +z of g_to_k, the     *)
 (* per-pixel table transform.PixelLUT (the record's xyz at a whole pixel,   *)
-(* t = 0: tth, eta, k, sin^2(theta) of the lab vector xyz alone).           *)
+(* t = 0: tth, eta, k, sin^2(theta) of the lab vector xyz alone),          *)
+(* calls that are alive at the same time (C01, harness/c01_alive.py): a     *)
+(* record is a function of its OWN lattice point, so what a call returns    *)
+(* may depend neither on a call another user has in flight (3-4 Python      *)
+(* threads, each looping over its own configuration - other wedge / chi /   *)
+(* omegasign / translation / flip - on tables of 1e5..3e5 rows through      *)
+(* Ctransform, columnfile fast / slow and the raw kernels;                  *)
+(* compute_geometry is `threadsafe` in _cImageD11.pyf: no GIL) nor on a     *)
+(* later call (every history of two allocating calls by two users with      *)
+(* tables of equal length: the first result is judged again after the       *)
+(* second call and the two may not share memory).                           *)
 (*                                                                         *)
 (* INVARIANTS                                                              *)
 (*   TypeOK                                                                *)
@@ -149,6 +162,21 @@
 (*                inverse; matrix form = vector form of the docstring;      *)
 (*                rot(+-z, a) = Rz(+-a); with axis -z and pre = I the       *)
 (*                vector g is the pipeline's G k (G of RotateG at omega)    *)
+(*   UnitLaw      (SpecFwd) the LENGTH UNIT is free: the configuration with  *)
+(*                every length (z_size, y_size, distance, t_x, t_y, t_z)     *)
+(*                multiplied by u (UnitList: 2, 10, 1000 = microns per mm,   *)
+(*                1024; formed where the products fit 32 bits: the record    *)
+(*                counts them as `unitlaw`) has xyz, o and d                 *)
+(*                multiplied by u - hence the same d/|d|, two-theta, eta, k, *)
+(*                g (G and lambda hold no length) - and Project gives the    *)
+(*                same ray parameter and a detector-plane vector u times as  *)
+(*                long, i.e. the same pixel.  Homogeneity of degree one, so  *)
+(*                it composes: the harness replays every forward record in   *)
+(*                the units u^-1 and u^-2 (mm and metres when the record is  *)
+(*                read in microns; 2^-10, 2^-20) and expects the record's    *)
+(*                angles, g-vectors and pixels, and u^-k times its lengths.  *)
+(*                The staged pipeline is also compared with its closed form  *)
+(*                (XyzOf, OrgOf) here.                                       *)
 (*   Emit         prints one JSON record per terminal state                 *)
 (***************************************************************************)
 EXTENDS ExactLA, Json
@@ -344,6 +372,27 @@ Oms(c) == AngSigned(c.omega, c.sgn)
 LabOf(c, om) == LET W == WC(c) IN << M2T(MM(W[1], Rz(om))), W[2] * om[3] >>      \* sample -> lab at rotation om
 GOf(c, om)   == LET L == LabOf(c, om) IN << M2T(Transpose(L[1])), L[2] >>       \* lab -> sample (g = G k)
 
+\* closed forms of the stages (functions of the configuration alone: UnitLaw compares configurations)
+XyzOf(c) == LET pv == << (c.sc - PDEN * c.zc) * c.zs, (c.fc - PDEN * c.yc) * c.ys >>
+                fl == << c.o[1] * pv[1] + c.o[2] * pv[2], c.o[3] * pv[1] + c.o[4] * pv[2] >>
+                T  == TiltStack(c)
+                dn == T[2] * PDEN
+            IN << VAdd(MV(T[1], <<0, fl[2], fl[1]>>), <<c.dist * dn, 0, 0>>), dn >>
+OrgOf(c) == LET L == LabOf(c, Oms(c)) IN << MV(L[1], c.t), L[2] >>
+DiffOf(x, o) == Red(<< VSub(VScale(o[2], x[1]), VScale(x[2], o[1])), x[2] * o[2] >>)
+\* detector-plane vector (slow, fast; a length) of the lab point x, den R[2] * x[2]: inverse of Shift, Tilt, Flip
+PlaneVecOf(c, x) ==
+   LET R  == TiltStack(c)
+       pl == MV(Transpose(R[1]), VSub(x[1], <<c.dist * x[2], 0, 0>>))
+       fl == << pl[3], pl[2] >>
+   IN << c.o[1] * fl[1] + c.o[3] * fl[2], c.o[2] * fl[1] + c.o[4] * fl[2] >>      \* inverse of a signed permutation = transpose
+\* ray parameter s = n.(O - o) / n.d as <<numerator, denominator>> over the dens R[2] o[2], R[2] dd[2]
+RayOf(c, o, dd) == LET R == TiltStack(c)   n == Col(R[1], 1)
+                   IN << Dot(n, VSub(<<c.dist * o[2], 0, 0>>, o[1])), Dot(n, dd[1]) >>
+\* the same set-up written in a length unit u times smaller (every length of the configuration times u)
+UnitList == << 2, 10, 1000, 1024 >>
+InUnit(c, u) == [ c EXCEPT !.zs = u * c.zs, !.ys = u * c.ys, !.dist = u * c.dist, !.t = VScale(u, c.t) ]
+
 \* ---------------------------------------------------------------------------------------
 InitCommon == /\ pix = <<0,0>> /\ xyz = Zv /\ org = Zv /\ d = Zv
               /\ G = <<M2T(I3), 1>> /\ out = [none |-> 0]
@@ -415,19 +464,13 @@ RotateG == /\ stage = "diffed"
 \* ray / detector-plane intersection and inversion of Shift, Tilt, Flip, Place
 Project == /\ stage = "rotated" /\ cfg.mode = "fwd"
            /\ LET R   == TiltStack(cfg)
-                  n   == Col(R[1], 1)                                         \* R e_x, den R[2]
-                  \* s = n.(O - o) / n.d   with O = dist e_x
-                  num == Dot(n, VSub(<<cfg.dist * org[2], 0, 0>>, org[1]))    \* den R[2] * org[2]
-                  nd  == Dot(n, d[1])                                         \* den R[2] * d[2]
-                  \* hit point p = o + s d ; here s is left symbolic: the harness sees num, nd and dens
-                  pl  == MV(Transpose(R[1]), VSub(xyz[1], <<cfg.dist * xyz[2], 0, 0>>))   \* = den^2 vec
-                  dd  == R[2] * xyz[2]
-                  fl  == << pl[3], pl[2] >>                                   \* den dd
-                  \* inverse of a signed permutation = transpose
-                  v   == << cfg.o[1] * fl[1] + cfg.o[3] * fl[2], cfg.o[2] * fl[1] + cfg.o[4] * fl[2] >>
+                  \* s = n.(O - o) / n.d   with n = R e_x, O = dist e_x; left symbolic: the harness sees num, nd and dens
+                  ray == RayOf(cfg, org, d)
+                  \* hit point p = o + s d = xyz (s = 1), taken back to the detector plane
+                  v   == PlaneVecOf(cfg, xyz)
               IN out' = [ A |-> out.A, Bx |-> out.Bx,
-                          snum |-> num, sden |-> nd, snd |-> <<R[2] * org[2], R[2] * d[2]>>,
-                          pixnum |-> v, pixden |-> dd ]
+                          snum |-> ray[1], sden |-> ray[2], snd |-> <<R[2] * org[2], R[2] * d[2]>>,
+                          pixnum |-> v, pixden |-> R[2] * xyz[2] ]
            /\ stage' = "projected" /\ UNCHANGED <<lat, cfg, pix, xyz, org, d, G>>
 
 \* lambda g  as a reduced scaled vector
@@ -544,6 +587,30 @@ BraggLaw == (stage = "uncomputed" /\ cfg.mode = "inv") =>
    IN /\ 0 <= ss[1] /\ ss[1] <= ss[2]
       /\ MulEq(Norm2(out.gam[1]), ss[2], 4 * cfg.m * cfg.m * ss[1], out.gam[2] * out.gam[2])
 
+\* the length unit is free (homogeneity of degree one in the lengths).  Formed where every product stays below 2^31
+\* (the largest one is n . d(u) <= 1581 u T^2 L with T, L the denominators of the tilt stack and of WI.CI.Rz(omega))
+UnitFits(u) == LET T == TiltStack(cfg)[2]   L == LabOf(cfg, Oms(cfg))[2]
+               IN T * T * L < (2147483647 \div 1581) \div u
+UnitLawAt(u) ==
+   LET cu == InUnit(cfg, u)
+       xu == XyzOf(cu)
+       ou == OrgOf(cu)
+       du == DiffOf(xu, ou)
+       ru == RayOf(cu, ou, du)
+       vu == PlaneVecOf(cu, xu)
+   IN /\ xu = << VScale(u, xyz[1]), xyz[2] >>
+      /\ ou = << VScale(u, org[1]), org[2] >>
+      /\ \A k \in 1..3 : MulEq(d[2], du[1][k], u * du[2], d[1][k])              \* d(u) = u d  (both reduced)
+      \* the same ray parameter (a ratio of two lengths): s(u) = 1, and n.d(u) = 0 exactly where n.d = 0
+      /\ (out.sden = 0) = (ru[2] = 0)
+      /\ out.sden # 0 => MulEq(ru[1], du[2], ru[2], ou[2])
+      /\ vu = << u * out.pixnum[1], u * out.pixnum[2] >>                         \* same pixel: v(u) / (u z_size)
+UnitLaw == (stage = "projected" /\ cfg.mode = "fwd") =>
+   /\ xyz = XyzOf(cfg) /\ org = OrgOf(cfg) /\ d = DiffOf(xyz, org)              \* stages = closed form
+   /\ out.pixnum = PlaneVecOf(cfg, xyz)
+   /\ \A i \in 1..Len(UnitList) : UnitFits(UnitList[i]) => UnitLawAt(UnitList[i])
+UnitsFormed == Cardinality({ i \in 1..Len(UnitList) : UnitFits(UnitList[i]) })
+
 AxisLaw == (stage = "axrotated") =>
    LET ax == AxisList[lat[1]]
        R  == out.R
@@ -571,7 +638,7 @@ Emit ==
         PrintT("@@" \o ToJson([ mode |-> "fwd", par |-> ParJson, xyz |-> xyz, org |-> org, d |-> d,
                                 G |-> G, A |-> out.A, Bx |-> out.Bx,
                                 snum |-> out.snum, sden |-> out.sden, snd |-> out.snd,
-                                normlaw |-> B2I(NormFits) ]))
+                                normlaw |-> B2I(NormFits), units |-> UnitList, unitlaw |-> UnitsFormed ]))
    /\ stage = "axrotated" =>
         PrintT("@@" \o ToJson([ mode |-> "ax", par |-> ParJson, q |-> cfg.q, nq |-> QuadList[cfg.q][2],
                                 axis |-> AxisList[lat[1]], ai |-> lat[1], pre |-> PreList[lat[2]], pi |-> lat[2],
